@@ -268,10 +268,18 @@ def check_single(sc, tr, rc):
     deliv_ts = sorted(d[2] for d in tr.deliveries for _ in d[4])
     refused = [s for s in sends if s[5] == 0]
     just = 0
+    last_cycle_wall = max((d[2] for d in tr.deliveries), default=None)
     for s in refused:
         stopped = (stop_call is not None and stop_call <= s[4]) or run_ret <= s[4]
         if stopped:
             just += 1
+            continue
+        if last_cycle_wall is not None and s[4] >= last_cycle_wall:
+            # the run reached its END TIME on its own (a loaded machine can get there with producers still busy): the engine's own
+            # shutdown refuses sends before run() returns. Sound as a justification only because no cycle ran after the refusal;
+            # a refusal that is followed by further deliveries is still reported below (thorough tier, seed 7, c16_7_544)
+            just += 1
+            C["refusals_at_engine_end_time"] = C.get("refusals_at_engine_end_time", 0) + 1
             continue
         if s[1] == "block":
             V.append(f"send_blocking of {s[2]} failed although no stop had been requested before it returned")
